@@ -82,6 +82,8 @@ func main() {
 		writeJSON(*out, ExportRoundTrip(*profile, *seed, *n, *tier, *keep))
 	case "kernels":
 		writeJSON(*out, Kernels(*seed, *n, *driver, *keep))
+	case "rlp":
+		writeJSON(*out, RlpMode(*seed, *n, *driver, *keep))
 	case "campaign":
 		res := Campaign(*profile, *seed, *n, *tier, *driver, *keep, *par)
 		writeJSON(*out, res)
